@@ -386,18 +386,25 @@ func ruleEpcUpkeep(c *Ctx) {
 	info = pk.TypesInfo
 	okNext := false
 	ast.Inspect(fd.Body, func(n ast.Node) bool {
-		ifs, ok := n.(*ast.IfStmt)
-		if !ok {
+		// `<epoch> % EPOCHS_PER_SYNC_COMMITTEE_PERIOD` compared with 0, either way round, == or != (early return)
+		be, ok := n.(*ast.BinaryExpr)
+		if !ok || (be.Op != token.EQL && be.Op != token.NEQ) {
 			return true
 		}
-		be, ok := ast.Unparen(ifs.Cond).(*ast.BinaryExpr)
-		if !ok || be.Op != token.EQL {
+		var rem *ast.BinaryExpr
+		for _, side := range [][2]ast.Expr{{be.X, be.Y}, {be.Y, be.X}} {
+			r, ok := ast.Unparen(side[0]).(*ast.BinaryExpr)
+			if !ok || r.Op != token.REM || !strings.HasSuffix(types.ExprString(r.Y), "EPOCHS_PER_SYNC_COMMITTEE_PERIOD") {
+				continue
+			}
+			if tv, ok := info.Types[side[1]]; ok && tv.Value != nil && tv.Value.ExactString() == "0" {
+				rem = r
+			}
+		}
+		if rem == nil {
 			return true
 		}
-		rem, ok := ast.Unparen(be.X).(*ast.BinaryExpr)
-		if !ok || rem.Op != token.REM || !strings.HasSuffix(types.ExprString(rem.Y), "EPOCHS_PER_SYNC_COMMITTEE_PERIOD") {
-			return true
-		}
+		ifs := be
 		src := types.ExprString(rem.X)
 		if id, ok := ast.Unparen(rem.X).(*ast.Ident); ok {
 			defs := singleDefs(info, fd.Body)
